@@ -108,31 +108,15 @@ func (in *Interp) addHarnessIntrinsics(m map[string]extFn) {
 	m["verif:verifNondetBool"] = scalar("bool", 0)
 	m["verif:verifNondetBytes"] = func(fr *frame, a []Value) Value {
 		n := int(in.concreteInt(a[0], "verifNondetBytes length"))
-		p := in.path
-		e := TapeEntry{Kind: "bytes"}
 		s := make(Slice, n)
-		for i := 0; i < n; i++ {
-			p.nvars++
-			v := tc.Var(fmt.Sprintf("n%d_b", p.nvars), 8)
-			e.vars = append(e.vars, v)
-			s[i] = v
+		for i, b := range in.freshBytes(n) {
+			s[i] = b
 		}
-		in.tapeAdd(e)
 		return s
 	}
 	m["verif:verifNondetString"] = func(fr *frame, a []Value) Value {
 		n := int(in.concreteInt(a[0], "verifNondetString length"))
-		p := in.path
-		e := TapeEntry{Kind: "bytes"}
-		b := make([]*Term, n)
-		for i := 0; i < n; i++ {
-			p.nvars++
-			v := tc.Var(fmt.Sprintf("n%d_b", p.nvars), 8)
-			e.vars = append(e.vars, v)
-			b[i] = v
-		}
-		in.tapeAdd(e)
-		return mkStr(b)
+		return mkStr(in.freshBytes(n))
 	}
 	// symbolic-length byte slice with unconstrained content (sizes only)
 	m["verif:verifNondetBytesN"] = func(fr *frame, a []Value) Value {
